@@ -48,6 +48,19 @@ impl Graveyard {
         );
     }
 
+    /// Client ids that have a saved session state (sorted).
+    #[cfg(rumqtt_verif)]
+    pub fn verif_ids(&self) -> Vec<String> {
+        let mut ids: Vec<String> = self
+            .connections
+            .iter()
+            .filter(|(_, s)| s.session_state.is_some())
+            .map(|(id, _)| id.clone())
+            .collect();
+        ids.sort();
+        ids
+    }
+
     /// Save only metrics for connection
     pub fn save_metrics(&mut self, id: String, metrics: ConnectionEvents) {
         self.connections.insert(
